@@ -539,8 +539,11 @@ impl<'a, R: RealNumberInternalTrait> Interpreter<'a, R> {
                     .imported_library
                     .insert(lib_name.clone().extract_data())
                 {
-                    let library = self.get_library(lib_name.clone())?;
+                    let library = self.get_library(lib_name.clone());
+                    // the in-progress mark is removed on failure too, otherwise a later import
+                    // of the same library would be reported as cyclic
                     self.imported_library.remove(lib_name);
+                    let library = library?;
                     Ok(library
                         .iter_definitions()
                         .map(|(name, value)| (name.clone(), value.clone()))
